@@ -224,6 +224,14 @@ def evaluate(n, vars, ctx=None):
                     comps.append(acc / h)
                 return numpy.stack(comps, axis=-1), ai
             g1, ai = fd(1e-2); g2, _ = fd(5e-3)
+            # one-sided slopes: a kink (sqrt(abs(.)) at a zero of its argument) makes the gradient undefined although the symmetric differences agree
+            f0, _ = evaluate(n['e'], vars, ctx)
+            for k in range(2):
+                xa = numpy.array(ctx['x'], dtype=float); xb = xa.copy(); xa[k] += 1e-4; xb[k] -= 1e-4
+                fa_, _ = evaluate(n['e'], vars, dict(ctx, x=xa)); fb_, _ = evaluate(n['e'], vars, dict(ctx, x=xb))
+                one_sided = abs((fa_ - f0) - (f0 - fb_)) / 1e-4
+                if numpy.any(one_sided > 1e-2 * (1 + abs(g2[..., k]))):
+                    ctx['fderr'].append(1.)
             g2 = numpy.where(abs(g2) < 1e-9, 0., g2)     # the gradient of something that does not depend on x is exactly zero, not rounding noise (matters under sqrt/abs)
             ctx['fderr'].append(float(abs(g1 - g2).max() / (1 + abs(g1).max())) if g1.size else 0.)
             if n['f'] == 'sg':      # surface gradient: the part of the gradient tangential to the boundary
